@@ -153,7 +153,7 @@ def interpreter_replay_only(jr):
     return False
 
 
-def run_property(prop, tier, jobs, title, design_ref, assumptions, outside, expect_reach=None, finding_matcher=None):
+def run_property(prop, tier, jobs, title, design_ref, assumptions, outside, expect_reach=None, finding_matcher=None, extra_inconclusive=None, extra_coverage=None):
     t0 = time.time()
     seed = common.seed_from_env()
     binp, bdt = build_gosym()
@@ -163,9 +163,10 @@ def run_property(prop, tier, jobs, title, design_ref, assumptions, outside, expe
         futs = [ex.submit(run_job, binp, j) for j in jobs]
         for f in futs:
             results.append(f.result())
-    violations, inconclusive, known = [], [], collections.defaultdict(list)
+    violations, inconclusive, known = [], list(extra_inconclusive or []), collections.defaultdict(list)
     findings = common.load_findings()
     tot = collections.Counter()
+    replay_count, replay_ok = collections.Counter(), {}
     encoded, stubs = collections.Counter(), collections.Counter()
     samples = []
     nh = 0
@@ -198,12 +199,19 @@ def run_property(prop, tier, jobs, title, design_ref, assumptions, outside, expe
                     inconclusive.append("%s/%s: assertion %r undecided (solver: unknown)" % (jr["job"], h["harness"], f["msg"]))
                     continue
                 fid = finding_matcher(jr, h, f, findings) if finding_matcher else None
-                if interpreter_replay_only(jr):
+                rkey = (jr["job"], h["harness"], f["msg"])
+                replay_count[rkey] += 1
+                if replay_count[rkey] > 2 and rkey in replay_ok:
+                    # further counterexamples of an assertion already reproduced twice are not replayed one by one
+                    ok, text = True, "same assertion already reproduced natively (%s)" % replay_ok[rkey][:120]
+                elif interpreter_replay_only(jr):
                     # the counterexample fixes outcomes of opaque cryptographic stubs, which a native run cannot force:
                     # it is the interpreter's concrete re-execution of the real code's SSA along the recorded decisions
                     ok, text = True, "interpreter-level replay (decisions %s; model %s)" % (f.get("path"), json.dumps(f.get("model"))[:200])
                 else:
                     ok, text = native_replay(jr, h["harness"], f)
+                    if ok:
+                        replay_ok[rkey] = text
                 if not ok:
                     inconclusive.append("%s/%s: counterexample for %r did not reproduce natively (%s)" % (jr["job"], h["harness"], f["msg"], text))
                     continue
@@ -248,6 +256,7 @@ def run_property(prop, tier, jobs, title, design_ref, assumptions, outside, expe
         replayed_natively=len(violations) + sum(len(v) for v in known.values()),
         inconclusive=len(inconclusive), outside=outside,
     )
+    coverage.update(extra_coverage or {})
     common.write_evidence(prop, tier, seed, "other", coverage, assumptions, time.time() - t0, len(seen))
     print("%s %s: %d jobs, %d harnesses, %d paths, %d assertions, %d queries (%.0fs solver), violations=%d known=%d inconclusive=%d, %.0fs" % (
         prop, tier, len(jobs), nh, tot["paths"], tot["asserts"], tot["queries"], tot["solver_s"], len(seen), sum(len(v) for v in known.values()), len(inconclusive), time.time() - t0))
@@ -320,3 +329,56 @@ def c01(prop, tier):
                         design_ref="DESIGN.md §3 C01",
                         assumptions=["Setup invariants on the verifying key", "gnark-crypto primitives: opaque stubs with their length contracts"],
                         outside=["knowledge soundness of the pairing equation", "Setup / Prove", "byte-level decoding"])
+
+
+COMPILE_PATH = ("./frontend/... ./constraint ./internal/kvstore ./internal/circuitdefer ./internal/frontendtype ./std/multicommit ./std/rangecheck "
+                "./std/internal/logderivarg ./std/internal/logderivprecomp ./std/lookup/logderivlookup ./std/math/emulated ./std/math/bits ./std/math/cmp ./std/selector ./internal/utils")
+# every site of run-to-run nondeterminism in the compile path, with its disposition
+C11_SITES = {
+    ("map-range", "(*github.com/consensys/gnark/frontend/cs/scs.builder[E]).GetWireConstraints"): "harness verifHarness_getWireConstraints (all iteration orders)",
+    ("map-range", "(*github.com/consensys/gnark/frontend/cs/scs.builder[E]).GetWiresConstraintExact"): "harness verifHarness_getWiresConstraintExact (all iteration orders)",
+    ("go", "github.com/consensys/gnark/frontend.NewWitness"): "not on the compile path (witness construction); the goroutine feeds a channel consumed in order",
+    ("go", "github.com/consensys/gnark/internal/utils.Parallelize"): "not on the compile path (callers: backend provers and mpcsetup only; checked by grep in this run)",
+}
+
+
+def c11(prop, tier):
+    binp, _ = build_gosym()
+    scanf = os.path.join(OUT, "tmp", "c11_sites.json")
+    common.sh([binp, "-dir", REPO, "-scan-map-ranges", COMPILE_PATH, "-out", scanf])
+    sites = json.load(open(scanf))
+    extra = []
+    for s_ in sites:
+        if (s_["Kind"], s_["Func"]) not in C11_SITES:
+            extra.append("UNANALYSED-SITE %s in %s at %s: a source of run-to-run nondeterminism in the compile path without a harness" % (s_["Kind"], s_["Func"], s_["Pos"]))
+    # Parallelize must stay out of the compile path
+    p = subprocess.run("grep -rln 'utils.Parallelize' --include=*.go frontend constraint/*.go std/multicommit std/rangecheck std/internal std/lookup std/math internal/kvstore internal/circuitdefer | grep -v _test.go", cwd=REPO, shell=True, capture_output=True, text=True)
+    if p.stdout.strip():
+        extra.append("UNANALYSED-SITE utils.Parallelize is now called from the compile path: %s" % p.stdout.strip().replace("\n", " "))
+    jobs = [Job("scs-wire-queries", "./frontend/cs/scs", ["prelude_sym.go", "c11_wires.go"], {"PKGNAME": "scs"})]
+    return run_property(prop, tier, jobs,
+                        title="C11: every `range` over a map (and go/select) in the compile-path packages is enumerated from SSA; each map-range site is executed under EVERY iteration order with symbolic wire ids and must emit the same constraints.",
+                        design_ref="DESIGN.md §3 C11",
+                        assumptions=["Go is deterministic except for map iteration order, goroutine scheduling, time and randomness", "map keys are ints / structs of ints (no address-dependent hashing)"],
+                        outside=["std gadgets beyond the listed packages", "cross-process effects", "Commit() ordering (sorted k-way merge; to do)"],
+                        extra_inconclusive=extra, extra_coverage=dict(nondeterminism_sites=[dict(s_, disposition=C11_SITES.get((s_["Kind"], s_["Func"]), "UNANALYSED")) for s_ in sites], packages_scanned=COMPILE_PATH))
+
+
+def essa_matcher(jr, h, f, findings):
+    for fd in findings:
+        m = fd.get("match", {})
+        if fd.get("status") == "known" and m.get("engine") == "essa" and m.get("harness") == h["harness"] and m.get("msg") == f["msg"]:
+            return fd["id"]
+    return None
+
+
+def c10(prop, tier):
+    elems = [("U32", "tinyfield")] if tier == "quick" else [("U32", "tinyfield"), ("U64", "bn254")]
+    jobs = [Job("lookup-cache-" + e, "./constraint", ["prelude_sym.go", "prelude_elem_sym.go", "c06_sparse.go", "c10_lookup.go"],
+                {"PKGNAME": "constraint", "ELEMTYPE": e, "ELEMFR": fr_pkg(f)}, model="gfp:13", entries=["verifHarness_lookupSequential", "verifHarness_lookupInterleaved"]) for e, f in elems]
+    return run_property(prop, tier, jobs,
+                        title="C10: two solves sharing one compiled system execute the real Reset()/Solve() of the stateful lookup blueprint as atomic blocks under every interleaving (symbolic schedule) with symbolic witnesses; each must get its own table entries. Also: sequential re-use (Reset restores the initial state).",
+                        design_ref="DESIGN.md §3 C10",
+                        assumptions=["block-level atomicity of Reset() and Solve() (sub-block data races are the race detector's domain)", "abstract Solver with the contract checked in C06"],
+                        outside=["goroutine pipelines of the provers", "sync.Pool internals", "option-slice aliasing (planned)"],
+                        finding_matcher=essa_matcher)
